@@ -136,11 +136,6 @@ Definition of_group (g : groupT) (l : list (prov * cp)) : list cp :=
 Definition of_class (c : classT) (l : list (prov * cp)) : list cp :=
   map snd (filter (fun pc => class_eqb (p_class (fst pc)) c) l).
 
-Definition lit_val (c : cp) : val :=
-  match cp_out c with
-  | (_, t) :: _ => VTag t (cp_pid c) 0
-  | [] => VInvalid
-  end.
 
 Definition bind_chain (c : bcase) : res (plan * bound) :=
   let te := bc_te c in
@@ -149,11 +144,11 @@ Definition bind_chain (c : bcase) : res (plan * bound) :=
   do cps <- opt_res (compile_all te (sl_down sl) (sl_up sl) (sl_funcs sl)) EB_INTERNAL;
   match of_group GFinal cps, of_class ClInvoke cps with
   | [fin], [inv] =>
-    let base := fold_left (fun a lc => match cp_out lc with
-                                       | (Some i, _) :: _ => aput i (lit_val lc) a
-                                       | _ => a end)
+    let base := fold_left (fun a lc => apply_literal lc a)
                           (of_group GLiteral cps) (repeat VInvalid (sl_count sl)) in
-    Ok (pl, mkBound base (of_group GStatic cps) (of_group GRun cps ++ [fin])
+    Ok (pl, mkBound base (map snd (filter (fun pc => group_eqb (p_group (fst pc)) GStatic
+                                                     || group_eqb (p_group (fst pc)) GLiteral) cps))
+                    (of_group GRun cps ++ [fin])
                     (match of_class ClInit cps with [i] => Some i | _ => None end) inv)
   | _, _ => Err EB_NOFINAL
   end.
